@@ -464,7 +464,23 @@ def _tail_positions_ok(body):
                     return False
             elif any(isinstance(n, ast.Return) for n in ast.walk(st)):
                 return False
+        elif isinstance(st, ast.Try) and last and _try_is_tail(st):
+            continue
         elif any(isinstance(n, ast.Return) for n in ast.walk(st)):
+            return False
+    return True
+
+
+def _try_is_tail(st):
+    """try: ...; return E / except X: ... raise | return: every way out of the statement leaves the helper"""
+    if st.orelse or st.finalbody or not st.body or not st.handlers:
+        return False
+    if not isinstance(st.body[-1], ast.Return) or any(isinstance(n, ast.Return) for x in st.body[:-1] for n in ast.walk(x)):
+        return False
+    for h in st.handlers:
+        if not h.body or not isinstance(h.body[-1], (ast.Raise, ast.Return)):
+            return False
+        if any(isinstance(n, ast.Return) for x in h.body[:-1] for n in ast.walk(x)):
             return False
     return True
 
@@ -562,6 +578,17 @@ def _ret_to(body, make):
             st = copy.copy(st)
             st.body = _ret_to(st.body, make)
             st.orelse = _ret_to(st.orelse, make) if st.orelse else make(ast.Constant(value=None))
+            out.append(st)
+        elif isinstance(st, ast.Try) and last and _try_is_tail(st):
+            st = copy.copy(st)
+            st.body = st.body[:-1] + make(st.body[-1].value if st.body[-1].value is not None else ast.Constant(value=None))
+            hs = []
+            for h in st.handlers:
+                h = copy.copy(h)
+                if isinstance(h.body[-1], ast.Return):
+                    h.body = h.body[:-1] + make(h.body[-1].value if h.body[-1].value is not None else ast.Constant(value=None))
+                hs.append(h)
+            st.handlers = hs
             out.append(st)
         else:
             out.append(st)
